@@ -1272,7 +1272,7 @@ def audit(out: OutputBuffer, aconf: AuditConf, sshv: Optional[int] = None, print
             if payload_txt == 'Protocol major versions differ.':
                 if sshv == 2 and aconf.ssh1:
                     return audit(out, aconf, 1, print_target=print_target)  # The caller writes the output (when scanning a list of targets, it must stay in this target's buffer).
-            err = '[exception] error reading packet ({})'.format(payload_txt)
+            err = '[exception] error reading packet ({})'.format(Utils.to_print_ascii(payload_txt))  # The text comes from the peer: it is shown in printable ASCII only (no line breaks, no terminal control sequences).
         else:
             err_pair = None
             if sshv == 1 and packet_type != Protocol.SMSG_PUBLIC_KEY:
